@@ -460,10 +460,10 @@ STR_SAN_SETS = [
 STR_VAL_SETS = [
     [], ["not_empty"], ["min"], ["max"], ["min", "max"], ["max", "min"], ["not_empty", "max"],
     ["min", "not_empty"], ["P0"], ["P1", "max"], ["R0"], ["not_empty", "min", "R2"], ["R1p", "max"],
-    ["max", "not_empty", "P0"], ["C"], ["R0p", "min"], ["not_empty", "min", "max", "P1", "R1"],
+    ["max", "not_empty", "P0"], ["C"], ["R0p", "min"], ["not_empty", "min", "max", "P1", "R1"], ["R3"], ["R3p", "max"], ["min", "R3"],
     ["R2", "P0", "max", "min", "not_empty"],
 ]
-REGEX_LITS = ["^[a-z]+$", "@", "^.{2,4}$"]
+REGEX_LITS = ["^[a-z]+$", "@", "^.{2,4}$", "b{2}"]
 STR_DERIVES = ["Debug", "Clone", "PartialEq", "Eq", "PartialOrd", "Ord", "Hash", "FromStr", "AsRef",
                "Into", "TryFrom", "Borrow", "Display", "Deref"]
 USIZE_STYLES = ["lit", "const", "paren", "arith", "call", "parenconst", "shift", "userassoc", "usermod", "hex", "bin", "oct"]
@@ -552,6 +552,7 @@ def str_inputs(d, rng, alphabet, maxlen=3, sample=None, extra=()):
     # beyond the alphabet: astral characters (with and without case mappings), combining marks,
     # NUL / quote / backslash, and strings around the lengths 64 and 255
     out += ["\U00010400", "\U00010428a", "\U0001F600", "a\U0001F600\U0001F600", "a\u0301", "\u0301", "e\u0301\u0323", "\0", "a\0b", "\"", "\\", "a\"b\\c",
+            "bb", "b{2}", "abbc", "b", "bab", "Bb", "x{3}",
             "a" * 63, "a" * 64, "a" * 65, "\u0436" * 64, "B" * 255, "x" * 256, " " + "b" * 300 + " ", "\u00df" * 65, "\U0001F600" * 70]
     return out
 
@@ -946,6 +947,12 @@ def gen_arb_floats(rng, tier, start=0):
                 plan.append((shape, pr, LOWER[(pi + si) % 2], UPPER[(pi + si // 2) % 2]))
                 if tier != "quick":
                     plan.append((shape, pr, LOWER[(pi + si + 1) % 2], UPPER[(pi + si // 2 + 1) % 2]))
+        narrow = [("1.0", "1.000001"), ("1.0", "1.0000000000000002"), ("-2.000001", "-2.0"), ("0.0", "1e-7")]
+        for pr in narrow:
+            for shape in (["L", "U"], ["F", "L", "U"], ["U", "L"]):
+                plan.append((shape, pr, "greater", "less_or_equal"))
+                plan.append((shape, pr, "greater_or_equal", "less"))
+                plan.append((shape, pr, "greater_or_equal", "less_or_equal"))
         for j, (shape, (lo_t, hi_t), lk, uk) in enumerate(plan):
             if "L" in shape and "U" in shape and fbits(lo_t, is64) & ~(1 << (63 if is64 else 31)) == 0 and fbits(hi_t, is64) & ~(1 << (63 if is64 else 31)) == 0:
                 lk, uk = "greater_or_equal", "less_or_equal"
@@ -1094,7 +1101,7 @@ def gen_msg_decls(rng, tier):
     for ty in ("f32", "f64"):
         is64 = FLOAT_TYPES[ty]
         for kind in LOWER + UPPER:
-            for bi, bt in enumerate(["-5.5", "0.0", "64.0", "1e30", "-0.0", "0.1"]):
+            for bi, bt in enumerate(["-5.5", "0.0", "64.0", "1e30", "-0.0", "0.1", "1.4142135623730951", "0.30000000000000004", "3.1415927", "16777216.0", "-2.7182817"]):
                 env = []
                 e = spell_float(ty, bt, ["lit", "const"][(bi + n) % 2], env, "b")
                 d = Decl("mf%d" % n, ty, attr([block("validate", [[tid(kind), EQ, tx(e)]]),
